@@ -36,8 +36,41 @@ for m in ("add_mut", "sub_mut", "mul_mut", "div_mut", "copy_from"):
 for m in ("get", "set", "add_element_mut", "sub_element_mut", "mul_element_mut", "div_element_mut"):
     SPECS.append(G(f"{m}: row>=rows(self)->panic", DM + m + "$", Arg(2), ROWS(1), "pz", "n", "panic"))
     SPECS.append(G(f"{m}: col>=cols(self)->panic", DM + m + "$", Arg(3), COLS(1), "pz", "n", "panic"))
+def _implicit_length_check(kind):
+    """the buffer is indexed by a range or an induction variable that runs to the matrix dimension: `result[..ncols]`,
+    `for c in 0..ncols { result[c] = .. }` - the slice / element bounds check panics for a shorter buffer"""
+    def alt(prog, body):
+        from sa.prov import Resolver, alts, render
+        res = Resolver(body)
+        want = Dim(kind, 1)
+        for bb, t in body.calls():
+            f = t.get("f")
+            if not (f and f["path"] in ("std::ops::Index::index", "std::ops::IndexMut::index_mut") and len(t["args"]) == 2):
+                continue
+            base, ix = res.operand(t["args"][0]), res.operand(t["args"][1])
+            while base[0] == "call" and base[1].split("::")[-1] in ("deref", "deref_mut") and base[2]:
+                base = base[2][0]
+            if not any(a[0] == "arg" and a[1] == 3 for a in [base] + list(alts(base))):
+                continue
+            his = []
+            if ix[0] == "agg" and ix[1].endswith(("RangeTo::RangeTo", "RangeTo")) and ix[2]:
+                his.append(ix[2][0])
+            if ix[0] == "agg" and ix[1].endswith("Range::Range") and len(ix[2]) == 2:
+                his.append(ix[2][1])
+            if ix[0] == "field" and ix[2] == "0" and ix[1][0] == "variant" and ix[1][1][0] == "call" and ix[1][1][1].endswith("Iterator::next") and ix[1][1][2]:
+                for a in alts(ix[1][1][2][0]):
+                    if a[0] == "agg" and a[1].endswith("Range::Range") and len(a[2]) == 2:
+                        his.append(a[2][1])
+            if any(want(h) for h in his):
+                return True, f"`result` is indexed up to {render([h for h in his if want(h)][0])} at {body.where(bb)}: the bounds check refuses a shorter buffer"
+        return False, ""
+    return alt
+
+
 for m, d, D in (("copy_row_as_vec", "cols", COLS), ("copy_col_as_vec", "rows", ROWS)):
-    SPECS.append(G(f"{m}: len(result)<{d}(self)->panic", DM + m + "$", LEN(3), D(1), "n", "pz", "panic"))
+    _g = G(f"{m}: len(result)<{d}(self)->panic", DM + m + "$", LEN(3), D(1), "n", "pz", "panic")
+    _g.alt = _implicit_length_check(d)
+    SPECS.append(_g)
 EQFN = r"^<linalg::naive::dense_matrix::DenseMatrix<T> as std::cmp::PartialEq>::eq$"
 for fn, nm in ((DM + "approximate_eq$", "approximate_eq"), (EQFN, "eq")):
     SPECS.append(G(f"{nm}: rows mismatch->false", fn, ROWS(1), ROWS(2), NE, EQ, "false"))
